@@ -82,12 +82,22 @@ Section Check.
   Definition mat_get (A : mat) (ij : nat * nat) : C := nth (snd ij) (nth (fst ij) A []) (c0 N).
   Definition mat_scale (k : C) (A : mat) : mat := map (map (cmul N k)) A.
 
+  (* np.allclose(a, b, atol=tol): |a-b| <= tol + rtol*|b| (rtol stays numpy's default) *)
+  Definition close_c_tol (tol : T) (a b : C) : bool :=
+    nleb N (cabs N (csub N a b)) (nadd N tol (nmul N (rtol N) (cabs N b))).
+  Definition mat_allclose_tol (tol : T) (A B : mat) : bool :=
+    Nat.eqb (length A) (length B) &&
+    forallb (fun ab => Nat.eqb (length (fst ab)) (length (snd ab)) &&
+                       forallb (fun xy => close_c_tol tol (fst xy) (snd xy)) (combine (fst ab) (snd ab)))
+            (combine A B).
+
+  (* the final comparison is np.allclose(A, phase * B, atol=ATOL) *)
   Definition equiv_up_to_phase (A B : mat) : result bool :=
     match argmax_entry A with
     | None => Err EValue                                   (* argmax of an empty sequence *)
     | Some ij =>
         if nltb N (cabs N (mat_get A ij)) (atol N) || nltb N (cabs N (mat_get B ij)) (atol N) then Ok false
-        else Ok (mat_allclose N A (mat_scale (cdiv N (mat_get A ij) (mat_get B ij)) B))
+        else Ok (mat_allclose_tol (atol N) A (mat_scale (cdiv N (mat_get A ij) (mat_get B ij)) B))
     end.
 
   Definition gates_qubits (gs : list (gate T)) : list Z := flat_map (@gate_qubits T) gs.
